@@ -169,14 +169,64 @@ func c12Direct(c *Ctx, idx int) {
 	c.Nontrivial(text, fmt.Sprint(n))
 }
 
+// c12Nested: a slice inside the right-hand side of another slice's projection
+// (and beside it in multi-selects, after pipes, inside filters): the inner
+// walk runs while the outer slice's elements are still being consumed.
+func c12Nested(c *Ctx, idx int) {
+	r := c.Rand("")
+	rows, cols := 1+r.Intn(6), r.Intn(7)
+	m := &ref.Arr{}
+	recs := &ref.Arr{}
+	cube := &ref.Arr{}
+	for i := 0; i < rows; i++ {
+		row := &ref.Arr{E: []ref.V{}}
+		var str strings.Builder
+		for j := 0; j < cols; j++ {
+			row.E = append(row.E, gen.IntV(int64(10*i+j)))
+			str.WriteString(c12Chars[(i+j)%len(c12Chars)])
+		}
+		m.E = append(m.E, row)
+		o := ref.NewObj()
+		o.Set("r", gen.Clone(row))
+		o.Set("s", str.String())
+		recs.E = append(recs.E, o)
+		cube.E = append(cube.E, &ref.Arr{E: []ref.V{gen.Clone(row), gen.Clone(row)}})
+	}
+	doc := ref.NewObj()
+	doc.Set("m", m)
+	doc.Set("rs", recs)
+	doc.Set("q", cube)
+	goDoc := ref.ToGo(doc, ref.JSONNumber)
+	sl := func() string {
+		pick := func() string {
+			if r.Chance(45) {
+				return ""
+			}
+			return fmt.Sprint(r.Intn(9) - 4)
+		}
+		st := gen.Pick(r, []string{"", "1", "-1", "2", "-2", "3", "-3", "2", "-1"})
+		return c12Spell(r, pick(), pick(), st)
+	}
+	a, b, d := sl(), sl(), sl()
+	forms := []string{"m" + a + b, "m" + a + b + d, "rs" + a + ".r" + b, "rs" + a + ".s" + b, "m" + a + "[*]" + b, "q" + a + b + d, "q" + a + "[0]" + b,
+		"m" + a + " | @" + b, "[m" + a + ", m" + b + "]", "m" + a + ".[@" + b + ", @" + d + "]", "m" + a + "[?@" + b + "]", "m[*]" + a + b, "m" + a + "[]" + b, "map(&@" + b + ", m" + a + ")", "m" + a + ".reverse(@" + b + ")", "rs" + a + ".{p: r" + b + ", q: s" + d + "}"}
+	for _, f := range forms {
+		m, _ := c.CheckModel("C12", f, doc, goDoc, CheckOpts{Compiled: idx%4 == 0, Features: map[string]string{"stream": "nested"}})
+		if !m.Unspec {
+			c.Nontrivial(f, fmt.Sprint(rows, cols))
+		}
+	}
+}
+
 func init() {
 	Register(&Property{
 		ID:            "C12",
-		Rule:          "x[start:stop:step] on arrays [0..n-1] and on strings of n mixed-width code points: exhaustive lattice n in 0..7 x start,stop in {absent, -9..9, +-2^62, 2^63-1, -2^63, -2^63+1} x step in {absent, +-1,2,3,7,8, 2^63-1, -2^63, -2^63+1, 2^62, 0, -0}, every spelling of absent parts; seeded n <= 300 with random 64-bit parameters plus the projection rule (array slice projects, string slice does not); compared with the specification's slice algorithm on big integers (model and a second direct oracle); non-trivial = model decides; distinct by (carrier, slice text, n)",
+		Rule:          "x[start:stop:step] on arrays [0..n-1] and on strings of n mixed-width code points: exhaustive lattice n in 0..7 x start,stop in {absent, -9..9, +-2^62, 2^63-1, -2^63, -2^63+1} x step in {absent, +-1,2,3,7,8, 2^63-1, -2^63, -2^63+1, 2^62, 0, -0}, every spelling of absent parts; seeded n <= 300 with random 64-bit parameters plus the projection rule (array slice projects, string slice does not); nested stream: slices inside the right-hand side of another slice's projection, beside it in multi-selects, after pipes/flatten, inside filters and expression references, over 2-D/3-D arrays and records of arrays and strings; compared with the specification's slice algorithm on big integers (model and a second direct oracle); non-trivial = model decides; distinct by (carrier, slice text, n)",
 		MinNontrivial: 5000,
 		Streams: []Stream{
 			{Name: "lattice", N: c12LatticeN, Run: c12Lattice, Exhaustive: true},
 			{Name: "random", N: func(c *Ctx) int { return tierN(c, 20000, 1500000) }, Run: c12Random},
+			{Name: "nested", N: func(c *Ctx) int { return tierN(c, 3000, 200000) }, Run: c12Nested},
 			{Name: "direct", N: func(c *Ctx) int { return tierN(c, 40000, 3000000) }, Run: c12Direct},
 		},
 	})
